@@ -9,6 +9,8 @@
 //   l1     : clustered points of Z^2 / Z^3 with the L1 distance (also run through the "coords" form: points + functor)
 //   graph  : shortest-path metric of a random connected graph with integer weights
 //   twolvl : two-level ultrametric-like spaces (clusters of diameter 1-2 at mutual distance 5-12)
+//   wide   : the same with the clusters at mutual distance about 2^27 (eps = 1/2, default mini / maxi)
+// Every 5th input is given to the library multiplied by 2^40 or 2^-40 and the values read back are divided by it.
 // For eps = 3/4 all distances are multiplied by 3 (then every value of the construction is an integer).
 #include "sprips_common.hpp"
 
@@ -87,6 +89,27 @@ static Input gen_twolvl(int n) {
   }
 }
 
+// two or three tight clusters (intra-cluster distances 1-2) at mutual distance about 2^27: the spread of the metric is
+// far beyond anything the other families reach (a relative tolerance, a float narrowed on the way or an early stop of
+// the farthest-point ordering "at numerically zero radius" shows here); eps = 1/2 keeps every product of
+// SparseRips.tla below 2^31
+static Input gen_wide(int n) {
+  for (;;) {
+    Input in;
+    in.n = n;
+    int k = rnd(2, 3);
+    std::vector<int> cl(n);
+    for (auto& c : cl) c = rnd(0, k - 1);
+    const int W = (1 << 27) - 8;
+    std::vector<std::vector<int>> cd(k, std::vector<int>(k, 0));
+    for (int a = 0; a < k; ++a) for (int b = a + 1; b < k; ++b) cd[a][b] = cd[b][a] = W + rnd(0, 6);
+    in.D.assign(n, std::vector<FV>(n, 0));
+    for (int i = 0; i < n; ++i) for (int j = i + 1; j < n; ++j)
+      in.D[i][j] = in.D[j][i] = cl[i] == cl[j] ? rnd(1, 2) : cd[cl[i]][cl[j]] + rnd(0, 1);
+    if (is_metric(in)) return in;
+  }
+}
+
 int main(int argc, char** argv) {
   if (argc < 4) { std::cerr << "usage: sprips_record outdir seed ninputs [nfiles]" << std::endl; return 2; }
   const std::string dir = argv[1];
@@ -110,18 +133,23 @@ int main(int argc, char** argv) {
     const bool large = it % 48 == 47;   // graph only (dim_max = 1): exercises the farthest-point ordering on more points
     const int n = large ? (it % 96 == 47 ? 10 : 12) : std::vector<int>{5, 5, 6, 6, 7, 8}[static_cast<std::size_t>(it) % 6];
     int fam = large ? rnd(0, 1) : rnd(0, 2);   // (two-level metrics on 12 points have too many tied orderings for TLC)
-    Input in = fam == 0 ? gen_l1(n) : fam == 1 ? gen_graph(n) : gen_twolvl(n);
-    const std::string family = fam == 0 ? "l1" : fam == 1 ? "graph" : "twolvl";
+    const bool wide = !large && it % 8 == 5;
+    Input in = wide ? gen_wide(std::min(n, 7)) : fam == 0 ? gen_l1(n) : fam == 1 ? gen_graph(n) : gen_twolvl(n);
+    const std::string family = wide ? "wide" : fam == 0 ? "l1" : fam == 1 ? "graph" : "twolvl";
+    // every 5th input is handed to the library multiplied by 2^-40 or 2^40 (exact; an absolute tolerance shows here)
+    const int scale_log2 = it % 5 == 3 ? (it % 10 == 3 ? -40 : 40) : 0;
+    in.scale = std::ldexp(1.0, scale_log2);
     Params pr;
-    int kind = rnd(0, 9);
-    if (kind <= 6) { auto e = eps_g[rnd(0, 2)]; pr.p = e[0]; pr.q = e[1]; }
+    int kind = wide ? -1 : rnd(0, 9);
+    if (wide) { pr.p = 1; pr.q = 2; }
+    else if (kind <= 6) { auto e = eps_g[rnd(0, 2)]; pr.p = e[0]; pr.q = e[1]; }
     else if (kind == 7) { pr.p = rnd(1, 2); pr.q = 1; }
     else { pr.p = 1; pr.q = 2; if (rnd(0, 1)) pr.mini = rnd(2, 3); if (pr.mini == 0 || rnd(0, 1)) pr.maxi = rnd(4, 12); }
     if (pr.p == 3) {  // exactness: distances multiples of 3
       for (auto& r : in.D) for (auto& x : r) x *= 3;
       for (auto& r : in.coords) for (auto& x : r) x *= 3;
     }
-    pr.dmax = large ? 1 : n >= 7 ? rnd(1, 2) : rnd(1, 3);   // at most 92 cells for the reduction in TLC
+    pr.dmax = large ? 1 : (n >= 7 || wide) ? rnd(1, 2) : rnd(1, 3);   // at most 92 cells for the reduction in TLC
     std::vector<std::string> forms = {"matrix", "points"};
     if (!in.coords.empty()) forms.push_back("coords");
     Cx rips = run_rips(in, pr.dmax, forms[static_cast<std::size_t>(it) % forms.size()]);
@@ -143,7 +171,7 @@ int main(int argc, char** argv) {
     for (auto& kv : outs) {
       const Cx& c = kv.second.first;
       bj::object o{{"op", "sparse"}, {"n", in.n}, {"d_set", in.d_set()}, {"p", pr.p}, {"q", pr.q}, {"mini", pr.mini}, {"maxi", pr.maxi},
-                   {"dmax", pr.dmax}, {"family", family}, {"form", first_form[kv.first]}, {"runs", kv.second.second},
+                   {"dmax", pr.dmax}, {"family", family}, {"scale_log2", scale_log2}, {"form", first_form[kv.first]}, {"runs", kv.second.second},
                    {"k_set", c.k_set()}, {"rips_set", rips.k_set()}};
       bj::array problems;
       for (auto& p : c.problems) problems.emplace_back(p);
